@@ -5,6 +5,7 @@ import (
 	goErr "errors"
 	"io"
 	"os"
+	"strings"
 	"syscall"
 
 	"github.com/cockroachdb/errors"
@@ -233,8 +234,11 @@ func (g *Cfg) WrapOf(t *rapid.T, k string, c *Spec) *Spec {
 		for i := 0; i < n; i++ {
 			s.S = append(s.S, str(t, "key"))
 		}
-	case "domain", "handleddomain", "ukeymarker":
+	case "domain", "handleddomain":
 		s.S = []string{str(t, "domain")}
+	case "ukeymarker":
+		// a type-mark extension is an identifier-like string: one line
+		s.S = []string{strings.ReplaceAll(strings.ReplaceAll(str(t, "marker"), "\n", "_"), "\r", "_")}
 	case "handleddomainmsg":
 		s.S = []string{str(t, "domain"), str(t, "msg")}
 	case "issuelink":
